@@ -116,7 +116,6 @@ def verify_function(c: Contract, registry: Dict[str, Contract]) -> FunctionResul
                 n_ret += 1
                 rv = o.val if o.val is not None else vnone()
                 env2 = dict(entry.locals)
-                env2.update({k: v for k, v in s.locals.items() if k in env})
                 env2["result"] = rv
                 for i, e in enumerate(c.ensures):
                     g = ex.spec_bool(s, e, env2, fi, old=entry)
@@ -124,6 +123,11 @@ def verify_function(c: Contract, registry: Dict[str, Contract]) -> FunctionResul
                 exempt = cell_exemptions(ex, c, fi, s, entry, env2)
                 for cond, cfields in c.cmodifies:
                     g0 = ex.spec_bool(s, f"old({cond})", env2, fi, old=entry)
+                    if "*" in cfields:
+                        from .spec import PROTECTED_FIELDS as _PF
+
+                        declared = {front.mangle(x, fi.cls.name if fi.cls else None) for x in c.modifies if "." not in x or x.startswith("$")}
+                        cfields = [f for f in s.heap if f not in _PF and f not in declared]
                     for m in cfields:
                         m2 = front.mangle(m, fi.cls.name if fi.cls else None)
                         if m2 in s.heap and not (m2 in s.heap0 and s.heap[m2] is s.heap0[m2]):
@@ -222,6 +226,8 @@ def frame_fields(c: Contract, fi: front.FuncInfo, st: State) -> List[str]:
             continue  # cell-level entry: handled by cell_exemptions
         allowed.add(front.mangle(m, cls))
     for _, cf in c.cmodifies:
+        if "*" in cf:
+            return []
         for m in cf:
             allowed.add(front.mangle(m, cls))
     out = []
